@@ -7,7 +7,8 @@ import UberjobModel.Model.FileStore
       store a class name of `Gen.FileStore.stores`, or `helper:w` / `helper:x` (`staged_write` with / without "w")
       vn    `1` the value is None, `0` it is not
       T, S  initial target / staging file: `-` absent, `e` empty, or `b,b,b`
-      body  `w:b,b,b` (one `write` call; `w:` = empty chunk) and `f:o|e|b` (the block raises), space separated
+      body  `w:b,b,b` (one `write` call; `w:` = empty chunk), `f:o|e|b` (the block raises) and `x:o|e|b` (a `write`
+            call that raises by itself without effect), space separated
       sched `k:r:o|e|b:p` (raise at op k after partial effect p) and `k:d:p` (die), space separated
     reply `out=… trace=… target=-|len:hash tchanged=0|1 ls=name,name other=0|1`
 
@@ -34,6 +35,7 @@ def parseBody (s : String) : List BodyOp :=
   (words s).filterMap (fun t =>
     if t.startsWith "w:" then some (.write (parseBytes (t.drop 2).toString))
     else if t.startsWith "f:" then some (.fail (parseExc (t.drop 2).toString))
+    else if t.startsWith "x:" then some (.failingWrite (parseExc (t.drop 2).toString))
     else none)
 
 def parseSched (s : String) : Sched :=
